@@ -15,7 +15,7 @@ import struct
 import numpy as np
 from hypothesis import strategies as st
 
-from ..core import Result, guard
+from ..core import Result, guard, attempt
 from ..ref import bpch_ref as B
 from .. import libstate
 from .. import known
@@ -52,7 +52,15 @@ RULE = (
     'equal.  (e) the scaled file sliced to its later time blocks (derived '
     'bpch-convention file) is written and reference-decoded the same way.  '
     '(f) pncopen(format="bpch") (bpch1 with fallback) presents the same '
-    'scaled values.  Non-trivial: >=2 time blocks and differing layer counts, or a '
+    'scaled values; the front-end class geoschemfiles.bpch opened with a '
+    'drawn noscale True/False and reader unspecified/bpch1/bpch2 is judged '
+    'like the direct readers (unscaled bit-identical, scaled = raw x scale, '
+    'tau exact).  ~1/7 of multi-block files are irregular (from the second '
+    'time block on the last block carries another tracer): bpch1 may refuse '
+    'them, bpch2 and the front end must present every variable on the '
+    'blocks that hold it.  A third of the table rows render SCALE so that '
+    'it fills the whole 10-character field (negative, 5 digits, plain '
+    'number).  Non-trivial: >=2 time blocks and differing layer counts, or a '
     'nested offset != 1, or a scale != 1.  Distinct by sha1 of the spec.')
 ASSUMPTIONS = [
     'numpy float32 multiplication is the reference for raw x scale',
@@ -76,6 +84,11 @@ NAMES = ['NOx', 'Ox', 'PAN', 'CO', 'ALK4', 'ISOP', 'HNO3', 'H2O2', 'ACET',
          'Be7', 'CH3I', 'CO2bf', 'TAGCOna1']
 SCALES = [1.0, 1.0, 1e9, 1e9, 1e6, 1e12, 1e-3, 2.5, 1.234e3, 9.876e-2,
           1e-9, 1.0e2, 6.022e5]
+# SCALE renderings that fill the whole 10-character field (columns 62-71):
+# negative scales, five significant digits, plain numbers
+SCALE_TEXTS = ['-2.500E+00', '1.2345E+03', '1000000000', '1.0000E+09',
+               '-1.000E-03', '0.00100000', '123456.789', '2.5000E+00',
+               '-1.000E+09', '9.9999E-01']
 UNITS = ['ppbv', 'ppbC', 'v/v', 'molec/cm2/s', 'kg', 'unitless', 'hPa', 'K',
          'kg/m3', 'atoms C/cm2/s', 'cm/s', 'ug/m3', 'mol/mol', 'm']
 HUNITS = ['v/v', 'molec/cm2/s', 'kg', 'unitless', 'hPa', 'K', 'kg/m2/s',
@@ -133,6 +146,9 @@ def cases(draw, tier='quick'):
                            scale=draw(st.sampled_from(SCALES)),
                            unit=draw(st.sampled_from(UNITS)))
                 row['fullname'] = row['fullname'] % row['name']
+                if draw(st.sampled_from([False, False, True])):
+                    row['scale_text'] = draw(st.sampled_from(SCALE_TEXTS))
+                    row['scale'] = float(row['scale_text'])
                 usedfull[full] = row
                 table.append(row)
             trs.append(dict(id=tid, nl=draw(st.sampled_from(layers_pool)),
@@ -188,11 +204,34 @@ def cases(draw, tier='quick'):
         for c in cats:
             for tr in c['tracers']:
                 data.append(draw(payload(ni * nj * tr['nl'], mode)))
+    # how the front-end class (geoschemfiles.bpch = pncopen format 'bpch')
+    # is asked to open the file
+    front = [draw(st.sampled_from([True, False])),
+             draw(st.sampled_from([None, 'bpch1', 'bpch2', 'bpch2']))]
+    # irregular file: from the second time block on, the last block of each
+    # time carries another tracer of the same category (own table row); only
+    # the block-walking reader (and the front end falling back to it) can
+    # present such a file
+    swap = None
+    nvar = sum(len(c['tracers']) for c in cats)
+    if nt >= 2 and nvar >= 2 and draw(st.sampled_from([False] * 6 + [True])):
+        off = cats[-1]['offset']
+        alt = 1
+        while alt + off in usedfull or any(
+                tr['id'] == alt for tr in cats[-1]['tracers']):
+            alt += 1
+        row = dict(tracer=alt + off, name=names.pop(), fullname='swapped in',
+                   molwt=1.0, carbon=1, scale=draw(st.sampled_from(SCALES)),
+                   unit=draw(st.sampled_from(UNITS)))
+        usedfull[alt + off] = row
+        table.append(row)
+        swap = dict(alt_id=alt)
     return dict(ni=ni, nj=nj, start=start, modelname=model[0], res=model[1],
                 halfpolar=draw(st.sampled_from([1, 1, 0])),
                 center180=draw(st.sampled_from([1, 1, 0])),
                 times=times, cats=cats, table=table, diag_extra=diag_extra,
-                comments=draw(st.sampled_from([True] * 7 + [False])), mode=mode, data=data,
+                comments=draw(st.sampled_from([True] * 7 + [False])),
+                mode=mode, data=data, front=front, swap=swap,
                 title=draw(st.sampled_from(
                     ['GEOS-CHEM binary punch file v. 2.0',
                      'GEOS-CHEM diag49 instantaneous timeseries', ''])))
@@ -253,22 +292,32 @@ def enumerate_cases(tier):
 
 
 # ------------------------------------------------------------------ model
+def _last_pos(spec):
+    return sum(len(c['tracers']) for c in spec['cats']) - 1
+
+
 def blocks_of(spec):
-    """reference block list (file order) + per-variable expectations"""
+    """reference block list (file order)"""
     blocks = []
     k = 0
-    for (t0, t1) in spec['times']:
+    swap = spec.get('swap')
+    for ti, (t0, t1) in enumerate(spec['times']):
+        pos = 0
         for c in spec['cats']:
             for tr in c['tracers']:
+                tid = tr['id']
+                if swap and ti >= 1 and pos == _last_pos(spec):
+                    tid = swap['alt_id']
                 blocks.append(dict(
                     modelname=spec['modelname'], res=spec['res'],
                     halfpolar=spec['halfpolar'], center180=spec['center180'],
-                    category=c['name'], tracer=tr['id'], unit=tr['hunit'],
+                    category=c['name'], tracer=tid, unit=tr['hunit'],
                     tau0=t0, tau1=t1, reserved='',
                     dim=[spec['ni'], spec['nj'], tr['nl']],
                     start=spec['start'],
                     data=binascii.unhexlify(spec['data'][k])))
                 k += 1
+                pos += 1
     return blocks
 
 
@@ -297,6 +346,17 @@ def variables_of(spec):
                             cat=c['name'], id=tr['id'], nl=tr['nl'], row=row,
                             hunit=tr['hunit'], raw=np.array(arrs)))
             k += 1
+    swap = spec.get('swap')
+    if swap:
+        # last variable: first time block only; the swapped-in tracer holds
+        # the later blocks and is met last by a block walk
+        x = out[-1]
+        c = spec['cats'][-1]
+        row = table_row(spec, swap['alt_id'] + c['offset'])
+        y = dict(x, key='%s_%s' % (c['name'], row['name']),
+                 id=swap['alt_id'], row=row, raw=x['raw'][1:])
+        x['raw'] = x['raw'][:1]
+        out.append(y)
     return out
 
 
@@ -309,7 +369,8 @@ def write_inputs(spec, d):
         fo.write(buf)
     rows = [dict(name=r['name'], fullname=r['fullname'], molwt=r['molwt'],
                  carbon=r['carbon'], tracer=r['tracer'], scale=r['scale'],
-                 unit=r['unit']) for r in spec['table']]
+                 unit=r['unit'], scale_text=r.get('scale_text'))
+            for r in spec['table']]
     with open(os.path.join(d, 'tracerinfo.dat'), 'w') as fo:
         fo.write(B.tracerinfo_text(rows, comments=spec['comments']))
     drows = [dict(offset=c['offset'], category=c['name'],
@@ -529,6 +590,15 @@ def check_case(spec):
         r.label('tau>=1e5')
     r.nontrivial = bool((nt >= 2 and len(nls) > 1) or nested or scaled_any)
 
+    front = spec.get('front') or [False, None]
+    r.label('front:noscale=%s,reader=%s' % (front[0], front[1]))
+    if any(row.get('scale_text') for row in spec['table']):
+        r.label('scale-fills-field')
+    if any(e['row']['scale'] < 0 for e in exp):
+        r.label('scale<0')
+    if spec.get('swap'):
+        r.label('irregular-tracer-set')
+        return check_irregular(r, spec, exp, front)
     base = libstate.scratch_path('_c18')
     din = os.path.join(base, 'in')
     path, buf = write_inputs(spec, din)
@@ -650,10 +720,68 @@ def check_case(spec):
         if okm:
             check_tracer_vars(r, fm, exp, 'master-scaled', True,
                               "pncopen(format='bpch')", False)
+        _close_file(fm)
+        fm = None
+        okm, fm = check_front(r, path, spec, exp, front)
     finally:
         for f in (f0, f1, f2, g0, g1, fm):
             _close_file(f)
         f0 = f1 = f2 = g0 = g1 = fm = None
+        gc.collect()
+        shutil.rmtree(base, ignore_errors=True)
+    return r
+
+
+def check_front(r, path, spec, exp, front):
+    """the front-end class with the drawn noscale / reader arguments:
+    same oracle as for the direct readers"""
+    from PseudoNetCDF.geoschemfiles import bpch
+    noscale, reader = bool(front[0]), front[1]
+    kw = dict(noscale=noscale)
+    if reader is not None:
+        kw['reader'] = reader
+    tag = 'front-%s-%s' % ('noscale' if noscale else 'scaled',
+                           reader or 'default')
+    ok, fm = guard(r, tag + '-open', lambda: quiet(bpch, path, **kw))
+    if ok:
+        check_tracer_vars(r, fm, exp, tag, not noscale,
+                          'bpch(noscale=%s, reader=%r)' % (noscale, reader),
+                          False)
+        if not spec.get('swap'):
+            check_tau(r, fm, spec, tag)
+    return ok, fm
+
+
+def check_irregular(r, spec, exp, front):
+    """file whose tracer set changes between time blocks: bpch1 may refuse
+    it (allowed); bpch2 and the front end (falling back) present every
+    variable on the time blocks that hold it"""
+    r.nontrivial = True
+    base = libstate.scratch_path('_c18')
+    path, buf = write_inputs(spec, os.path.join(base, 'in'))
+    g0 = g1 = fm = None
+    try:
+        from PseudoNetCDF.geoschemfiles import bpch1, bpch2
+        exc, f0 = attempt(lambda: quiet(bpch1, path))
+        r.label('irregular:bpch1-' + ('raises' if exc is not None
+                                      else 'opens'))
+        _close_file(f0)
+        f0 = None
+        okg, g0 = guard(r, 'bpch2-noscale-open',
+                        lambda: quiet(bpch2, path, noscale=True))
+        if okg:
+            check_tracer_vars(r, g0, exp, 'bpch2-noscale', False,
+                              'bpch2(noscale)', False)
+        okg1, g1 = guard(r, 'bpch2-scaled-open',
+                         lambda: quiet(bpch2, path))
+        if okg1:
+            check_tracer_vars(r, g1, exp, 'bpch2-scaled', True, 'bpch2',
+                              False)
+        okm, fm = check_front(r, path, spec, exp, front)
+    finally:
+        for f in (g0, g1, fm):
+            _close_file(f)
+        g0 = g1 = fm = None
         gc.collect()
         shutil.rmtree(base, ignore_errors=True)
     return r
